@@ -104,6 +104,8 @@ pub trait Monitor: Sync {
     fn required_counters(&self) -> Vec<&'static str> {
         vec![]
     }
+    /// Called once before any case with the run's seed (also on replay, with the recorded seed).
+    fn prepare(&self, _seed: u64) {}
     /// True if this tier enumerates a finite space completely.
     fn exhaustive(&self, _tier: Tier) -> bool {
         false
@@ -277,6 +279,7 @@ pub fn run_one_case(mon: &dyn Monitor, case_index: u64, case_seed: u64, tier: Ti
 
 pub fn run(mon: &dyn Monitor, cfg: &RunConfig) -> RunSummary {
     let started = Instant::now();
+    mon.prepare(cfg.seed);
     let total = cfg.cases_override.unwrap_or_else(|| mon.cases(cfg.tier));
     let next = AtomicU64::new(0);
     let stop = AtomicBool::new(false);
@@ -290,9 +293,51 @@ pub fn run(mon: &dyn Monitor, cfg: &RunConfig) -> RunSummary {
         evaluations: 0,
     });
 
+    // Wall-clock watchdog: a case that neither returns nor exhausts the loop budget (a loop
+    // without a hook) must not hang the check. Its firing is INCONCLUSIVE, never a violation.
+    let in_flight: Vec<AtomicU64> = (0..cfg.threads).map(|_| AtomicU64::new(u64::MAX)).collect();
+    let all_done = AtomicBool::new(false);
+    let slot_counter = AtomicU64::new(0);
     std::thread::scope(|scope| {
+        {
+            let (in_flight, all_done) = (&in_flight, &all_done);
+            let id = mon.id();
+            let seed = cfg.seed;
+            let deadline = cfg.max_seconds + 120.0;
+            scope.spawn(move || {
+                let mut last_progress = Instant::now();
+                let mut last_snapshot: Vec<u64> = vec![];
+                loop {
+                    std::thread::sleep(std::time::Duration::from_millis(200));
+                    if all_done.load(Ordering::Relaxed) {
+                        return;
+                    }
+                    let snap: Vec<u64> = in_flight.iter().map(|a| a.load(Ordering::Relaxed)).collect();
+                    if snap != last_snapshot {
+                        last_snapshot = snap;
+                        last_progress = Instant::now();
+                    }
+                    // no case finished anywhere for 90 s, or the whole run is far beyond its cap
+                    if last_progress.elapsed().as_secs_f64() > 90.0 || started.elapsed().as_secs_f64() > deadline {
+                        let stuck: Vec<String> = last_snapshot
+                            .iter()
+                            .filter(|i| **i != u64::MAX)
+                            .map(|i| format!("{} (case_seed {})", i, rng::case_seed(seed, id, *i)))
+                            .collect();
+                        println!(
+                            "INCONCLUSIVE property={} reason=wall-clock watchdog fired: no case completed for 90 s (cases in flight: {}); a computation neither returned nor exhausted the loop budget",
+                            id,
+                            stuck.join(", ")
+                        );
+                        std::process::exit(2);
+                    }
+                }
+            });
+        }
+        let mut workers = vec![];
         for _ in 0..cfg.threads {
-            scope.spawn(|| {
+            workers.push(scope.spawn(|| {
+                let my_slot = slot_counter.fetch_add(1, Ordering::Relaxed) as usize;
                 let mut local = Merged {
                     counters: BTreeMap::new(),
                     maxima: BTreeMap::new(),
@@ -315,6 +360,7 @@ pub fn run(mon: &dyn Monitor, cfg: &RunConfig) -> RunSummary {
                         break;
                     }
                     let cs = rng::case_seed(cfg.seed, mon.id(), i);
+                    in_flight[my_slot].store(i, Ordering::Relaxed);
                     let rep = run_one_case(mon, i, cs, cfg.tier);
                     local.evaluations += 1;
                     for (k, v) in rep.counters {
@@ -362,8 +408,14 @@ pub fn run(mon: &dyn Monitor, cfg: &RunConfig) -> RunSummary {
                 m.samples.extend(local.samples);
                 m.violations.extend(local.violations);
                 m.inconclusive.extend(local.inconclusive);
-            });
+                drop(m);
+                in_flight[my_slot].store(u64::MAX, Ordering::Relaxed);
+            }));
         }
+        for w in workers {
+            let _ = w.join();
+        }
+        all_done.store(true, Ordering::Relaxed);
     });
 
     let mut m = merged.into_inner().unwrap();
@@ -564,6 +616,7 @@ pub fn replay(mon: &dyn Monitor, path: &str) -> i32 {
         _ => Tier::Quick,
     };
     let ci = j.get("case_index").and_then(|v| v.as_u64()).unwrap_or(0);
+    mon.prepare(j.get("seed").and_then(|v| v.as_u64()).unwrap_or(1));
     let cs = match cs {
         Some(c) => c,
         None => {
